@@ -30,6 +30,7 @@ const EMPTY: Slot = Slot { ptr: 0, size: 0, align: 0, epoch: 0, quarantined: fal
 #[derive(Clone, Copy, Debug)]
 pub struct Event {
     pub kind: u8, // 1 mismatch on free, 2 free of unknown pointer, 3 double free (of a quarantined block), 4 mismatch on realloc
+    #[allow(dead_code)]
     pub ptr: usize,
     pub got: (usize, usize),
     pub recorded: (usize, usize),
@@ -395,6 +396,7 @@ pub fn scope_end(s: Scope) -> Report {
     }
 }
 
+#[allow(dead_code)]
 pub fn totals() -> (u64, u64) {
     (N_ALLOC.load(Relaxed), N_FREE.load(Relaxed))
 }
